@@ -404,6 +404,9 @@ func (i *invoker) bidiStream(
 
 	var protoErr *conformancev1.Error
 	totalRcvd := 0
+	// Set once Receive has reported the end of the response stream (or an
+	// error): Receive must not be called again after that.
+	recvDone := false
 	for i, msg := range req.RequestMessages {
 		bsr := &conformancev1.BidiStreamRequest{}
 		if err := msg.UnmarshalTo(bsr); err != nil {
@@ -441,6 +444,7 @@ func (i *invoker) bidiStream(
 				}
 				// Reads are done either because we received an error or an EOF
 				// In either case, break the outer loop
+				recvDone = true
 				break
 			}
 			// On successful receive, get the returned payload.
@@ -473,7 +477,7 @@ func (i *invoker) bidiStream(
 	}
 
 	// Receive any remaining responses
-	for {
+	for !recvDone {
 		msg, err := stream.Receive()
 		if err != nil {
 			if !errors.Is(err, io.EOF) {
